@@ -169,7 +169,10 @@ HIST_OPS = [[net, req] for net in ("main", "test") for req in ("keys84", "keys49
 
 
 def _ev_op(i):
-    return ["test" if i % 2 else "main", "keysN", i // 2]
+    # irregular network pattern, and every third request asks for the public key only, so that entries of one network do not
+    # line up with the slots of a ring of even size
+    net = "test" if (i * 7 // 3) % 2 else "main"
+    return [net, "pubN" if i % 3 == 0 else "keysN", i]
 
 
 class TwoWalletHistories:
@@ -185,7 +188,9 @@ class TwoWalletHistories:
             net, req = op[0], op[1]
             w = ws[net]
             if req == "keysN":
-                obj, mn = {k: v for k, v in w.node_extended_keys(w.by_path("m/84'/0'/%d'" % op[2])).items() if k != "path"}, 2
+                obj, mn = {k: v for k, v in w.node_extended_keys(w.by_path("m/%d'/0'/%d'" % ((44, 49, 84)[op[2] % 3], op[2]))).items() if k != "path"}, 2
+            elif req == "pubN":
+                obj, mn = w.node_extended_public_key(w.by_path("m/%d'/0'/%d'" % ((44, 49, 84)[op[2] % 3], op[2]))), 1
             elif req == "keys84":
                 obj, mn = {k: v for k, v in w.node_extended_keys(w.by_path("m/84'/0'/0'")).items() if k != "path"}, 2
             elif req == "keys49t":
